@@ -311,6 +311,9 @@ func runPipe(vec map[string]interface{}) map[string]interface{} {
 				stage = 2
 			}
 		}
+		if e.Ev != "ready" && e.Ev != "recv" { // begin / end of the entry point: the trace builder adds its own markers
+			continue
+		}
 		if e.Ev == "recv" && e.Site != spec.recvSite {
 			continue
 		}
